@@ -126,6 +126,8 @@ type batchRec struct {
 	endSeq int64
 	size   int
 	units  int
+	// itemless: the batch carries at least one container without items
+	itemless bool
 }
 
 func runB(s BScript) (nontrivial bool, key string, f *vt.Finding) {
@@ -163,6 +165,9 @@ func runBInner(s *BScript) (nontrivial bool, f *vt.Finding) {
 			}
 		}
 		rec.units = sig.UnitCount(v)
+		// a resource / scope / metric entry without any item: what is left of a request whose items were all
+		// extracted into earlier batches travels on as such an entry
+		rec.itemless = len(sig.StandaloneSizes(v)) > rec.units
 		if s.Sizer == "items" {
 			rec.size = sig.Count(v)
 		} else {
@@ -234,7 +239,7 @@ func runBInner(s *BScript) (nontrivial bool, f *vt.Finding) {
 	for bi, b := range batches {
 		out = append(out, b.items...)
 		if s.Max > 0 && b.size > s.Max && b.units > 1 {
-			if f := vt.Failf("size-bound/"+s.Sizer+"/"+s.Signal+overshootClass(s.Sizer, b.size-s.Max), "batch %d has size %d %s > max %d and holds %d units", bi, b.size, s.Sizer, s.Max, b.units); !cB.Soft(f, s) {
+			if f := vt.Failf("size-bound/"+s.Sizer+"/"+s.Signal, "batch %d has size %d %s > max %d and holds %d units", bi, b.size, s.Sizer, s.Max, b.units); !cB.Soft(f, s) {
 				return true, f
 			}
 		}
@@ -275,6 +280,19 @@ func runBInner(s *BScript) (nontrivial bool, f *vt.Finding) {
 			return true, vt.Failf("callback-missed-error", "request %d returned nil although a batch carrying its items failed", ri)
 		}
 		if !wantErr && r.err != nil {
+			// "every batch containing part of it": what is left of a split request once all its items went out
+			// (resource / scope entries without items, bytes sizer) is part of it too, and cannot be attributed
+			// to a request from outside.  A failed batch carrying such an entry may therefore be the reason.
+			excused := false
+			for _, b := range batches {
+				if b.failed && b.itemless && b.endSeq <= r.retSeq {
+					excused = true
+				}
+			}
+			if excused {
+				cB.Class("error-possibly-via-itemless-remainder")
+				continue
+			}
 			desc := ""
 			for bi, b := range batches {
 				desc += fmt.Sprintf(" batch%d{ids=%v failed=%v size=%d}", bi, keys(b.ids), b.failed, b.size)
